@@ -80,7 +80,7 @@ pub fn check<I: Inputs>(vt: &'static Vt<I>, ctx: &Ctx) -> DeclReport {
         view!("Clone", vt.clone);
         view!("Copy", vt.copy);
         if let Some(f) = vt.display {
-            let exp = inner.display_();
+            let exp = inner.display_all_();
             match no_panic(|| f(raw.clone())) {
                 Ok(got) if got == exp || exp.is_none() => {}
                 Ok(got) => return Outcome::fail(nontrivial, class, sig("Display", "differs-from-inner"), format!("{exp:?}"), format!("{got:?}")),
